@@ -8,6 +8,7 @@ import Csvq.Model.Float
 import Csvq.Lemmas.Text
 import Csvq.Lemmas.Float
 import Csvq.Model.Cast
+import Csvq.Gen.CmpFacts
 namespace Csvq.C06
 open Csvq
 
@@ -448,6 +449,73 @@ theorem int_text_roundtrip (i : Int) (h : inI64 i) : strToIntStrict (decText i) 
 theorem int_out_of_range_not_integer (s : Bytes) (i : Int) (h : parseSigned s = some i) (hr : ¬ inI64 i) :
     parseIntStrict s = none := by
   unfold parseIntStrict; rw [h]; unfold inI64 at hr; simp [hr]
+
+/-! ## Tie to the source: the comparison core of lib/value/comparison.go, TRANSLATED on every run
+    (extract/cmpfacts → Gen/CmpFacts.lean) -/
+
+
+theorem gen_compareInteger_eq (x y : Int) : Gen.compareInteger x y = cmpInt x y := by
+  simp [Gen.compareInteger, cmpInt]
+
+theorem gen_compareFloat_eq (x y : FVal) : Gen.compareFloat x y = cmpFloat x y := by
+  simp [Gen.compareFloat, cmpFloat]
+
+theorem gen_rungDatetime_eq (x y : Int) : Gen.rungDatetime x y = cmpInt x y := by
+  simp [Gen.rungDatetime, cmpInt]
+
+theorem gen_rungString_eq (x y : Bytes) : Gen.rungString x y = cmpBytes x y := by
+  simp [Gen.rungString, cmpBytes]
+
+theorem gen_rungBoolean_eq (x y : Bool) : Gen.rungBoolean x y = (if x = y then Cmp.boolEq else Cmp.ne) := by
+  cases x <;> cases y <;> rfl
+
+/-- the six operators as they stand in the source are the model's, for every pair of operands -/
+theorem gen_ops_eq_model (a b : Profile) :
+    Gen.opEqual (cmp a b) = opEq a b ∧ Gen.opNotEqual (cmp a b) = opNe a b ∧
+    Gen.opLess (cmp a b) = opLt a b ∧ Gen.opGreater (cmp a b) = opGt a b ∧
+    Gen.opLessOrEqual (cmp a b) = opLe a b ∧ Gen.opGreaterOrEqual (cmp a b) = opGe a b := by
+  simp only [opEq, opNe, opLt, opGt, opLe, opGe]
+  cases cmp a b <;> decide
+
+/-- the ladder of CompareCombinedly: the conversions in the order of the model's rungs -/
+theorem gen_ladder_order :
+    Gen.cmpLadder = ["ToIntegerStrictly", "ToFloat", "ToDatetime", "ToBoolean", "isString"] := by decide
+
+/-- CompareCombinedly assembled from the TRANSLATED pieces in the extracted ladder order -/
+def cmpGen (a b : Profile) : Cmp :=
+  if a.isNull || b.isNull then .incomm
+  else match a.int?, b.int? with
+    | some x, some y => Gen.compareInteger x y
+    | _, _ => match a.flt?, b.flt? with
+      | some x, some y => Gen.compareFloat x y
+      | _, _ => match a.dt?, b.dt? with
+        | some x, some y => Gen.rungDatetime x y
+        | _, _ => match a.bool?, b.bool? with
+          | some x, some y => Gen.rungBoolean x y
+          | _, _ => match a.strU?, b.strU? with
+            | some x, some y => Gen.rungString x y
+            | _, _ => .incomm
+
+/-- the model's comparison ladder `cmp` — on which every theorem above rests — is that assembly -/
+theorem cmp_eq_gen (a b : Profile) : cmp a b = cmpGen a b := by
+  unfold cmp cmpGen rungInt rungFlt rungDt rungBool rungStr
+  simp only [gen_compareInteger_eq, gen_compareFloat_eq, gen_rungDatetime_eq, gen_rungString_eq, gen_rungBoolean_eq]
+  cases a.int? <;> cases b.int? <;> cases a.flt? <;> cases b.flt? <;> cases a.dt? <;> cases b.dt? <;>
+    cases a.bool? <;> cases b.bool? <;> cases a.strU? <;> cases b.strU? <;> rfl
+
+/-- `Compare` sends every operator to the function the model's `compare` uses, operands in order -/
+theorem gen_dispatch :
+    Gen.compareDispatch = [("=", "Equal"), ("==", "Identical"), (">", "Greater"), ("<", "Less"),
+      (">=", "GreaterOrEqual"), ("<=", "LessOrEqual"), ("default", "NotEqual")] := by decide
+
+/-- `Equivalent` (used by CASE, IN lists of NULLs …): both NULL → TRUE, else `Equal` -/
+theorem gen_equivalent_shape :
+    Gen.equivalentShape = ["if IsNull(p1) && IsNull(p2) { return ternary.TRUE }",
+      "return Equal(p1, p2, datetimeFormats, location)"] := by decide
+
+/-- `Identical` (`==`): same-type tests in the model's order, each comparing the raw values -/
+theorem gen_identical_ladder :
+    Gen.identicalOrder = ["Integer", "Float", "Datetime", "Boolean", "Ternary", "String"] := by decide
 
 /-! ## non-vacuity: concrete operands meeting the hypotheses -/
 
